@@ -511,7 +511,7 @@ static reproc_redirect mk_redirect(jv *r)
   if (r->t == J_ARR) {
     if (r->n > 0) d.type = (REPROC_REDIRECT) r->a[0]->i;
     if (r->n > 1 && r->a[1]->t == J_INT) d.handle = (int) r->a[1]->i;
-    if (r->n > 2 && r->a[2]->t == J_INT && r->a[2]->i > 0) d.file = sk_file_for_fd((int) r->a[2]->i);
+    if (r->n > 2 && r->a[2]->t == J_INT && r->a[2]->i > 0) d.file = sk_file_for_fd(r->a[2]->i == 1000 ? 0 : (int) r->a[2]->i);   /* 1000 = a FILE on descriptor 0 */
     if (r->n > 3 && r->a[3]->t == J_STR && r->a[3]->s[0]) d.path = keep(r->a[3]->s);
   }
   return d;
@@ -550,7 +550,7 @@ static reproc_options mk_options(jv *o, int h, uint8_t **inbuf)
   op.redirect.parent = j_int(o, "parent", 0) != 0;
   op.redirect.discard = j_int(o, "discard", 0) != 0;
   long f = j_int(o, "file", 0);
-  op.redirect.file = f > 0 ? sk_file_for_fd((int) f) : NULL;
+  op.redirect.file = f > 0 ? sk_file_for_fd(f == 1000 ? 0 : (int) f) : NULL;
   op.redirect.path = j_get(o, "path") && j_get(o, "path")->t == J_STR && j_get(o, "path")->s[0] ? keep(j_get(o, "path")->s) : NULL;
   op.stop = mk_stop(j_get(o, "stop"));
   op.deadline = (int) j_int(o, "dl", 0);
